@@ -119,37 +119,50 @@ Fixpoint adv (ra lr : bool) (t : tid) (p : prog) (w : world) : ares :=
       end
   end.
 
+(* [pb] ("pause at call boundaries"): a thread whose call has run to its end is left parked, with the call's outcome
+   pending behind an operation without effect, before the call returns: the boundary between two calls becomes a state
+   of the system (real threads can be preempted there).  Used to state what a thread holds between calls; the
+   implementation is compared with the model without it. *)
+Definition bpause_op : op := OKilled 1.
+Definition term_of (out : outcome) : prog :=
+  match out with ODone v => Ret v | OPanic => Throw | OFuel => Fuel | OAbort | OBlocked => Abort end.
+
 (* the calls that follow: each is started and run on; the thread stops at the first scheduling point, at the end of
    its program, or at a stop code *)
-Fixpoint drain_calls (ra lr : bool) (e : env) (t : tid) (loc : tlocal) (rest : list apiop) (w : world) (evs : list bev)
+Fixpoint drain_calls (ra lr pb : bool) (e : env) (t : tid) (loc : tlocal) (rest : list apiop) (w : world) (evs : list bev)
   : thr * world * list bev :=
   match rest with
   | [] => (mkthr None [] loc true true, w, evs)
   | o :: r =>
       match api_prog e loc o with
-      | None => drain_calls ra lr e t loc r w (BRet t RSkipped (negb (w_keyf w t)) :: evs)
+      | None => drain_calls ra lr pb e t loc r w (BRet t RSkipped (negb (w_keyf w t)) :: evs)
       | Some p =>
           match adv ra lr t p (clear_trace w) with
           | APark p' w' => (mkthr (Some (o, p')) r loc true false, w', wrap (w_trace w') ++ evs)
           | AFin out w' =>
+              if pb then (mkthr (Some (o, Op bpause_op (fun _ => term_of out))) r loc true false, w', wrap (w_trace w') ++ evs)
+              else
               let (lc', rc) := api_fin e loc o out in
               let evs' := BRet t rc (negb (w_keyf w' t)) :: wrap (w_trace w') ++ evs in
               if stops rc then (mkthr None r lc' true true, w', evs')
-              else drain_calls ra lr e t lc' r w' evs'
+              else drain_calls ra lr pb e t lc' r w' evs'
           end
       end
   end.
 
-(* the running call [o] with remaining program [p]: run on, then the calls that follow *)
-Definition settle (ra lr : bool) (e : env) (t : tid) (o : apiop) (loc : tlocal) (rest : list apiop) (p : prog)
+(* the running call [o] with remaining program [p]: run on, then the calls that follow; [pbnow]: pause at the end of
+   this call (not when the thread has just been resumed from that very pause) *)
+Definition settle (ra lr pbnow pb : bool) (e : env) (t : tid) (o : apiop) (loc : tlocal) (rest : list apiop) (p : prog)
            (w : world) (evs : list bev) : thr * world * list bev :=
   match adv ra lr t p (clear_trace w) with
   | APark p' w' => (mkthr (Some (o, p')) rest loc true false, w', wrap (w_trace w') ++ evs)
   | AFin out w' =>
+      if pbnow then (mkthr (Some (o, Op bpause_op (fun _ => term_of out))) rest loc true false, w', wrap (w_trace w') ++ evs)
+      else
       let (lc', rc) := api_fin e loc o out in
       let evs' := BRet t rc (negb (w_keyf w' t)) :: wrap (w_trace w') ++ evs in
       if stops rc then (mkthr None rest lc' true true, w', evs')
-      else drain_calls ra lr e t lc' rest w' evs'
+      else drain_calls ra lr pb e t lc' rest w' evs'
   end.
 
 
@@ -178,10 +191,11 @@ Fixpoint note_waits (wp : bool) (nl : nat) (s : bstate) (ts : list tid) : bstate
    pauses: it is left parked on an operation without any effect (reading a kill flag) in front of the rest of its
    program, and runs on at its next turn. *)
 Definition pause_op : op := OKilled 0.
-Definition turn_g (ra yr : bool) (wp : bool) (e : env) (nl : nat) (s : bstate) (t : tid) : bstate :=
+Definition is_bpause (o : option op) : bool := match o with Some (OKilled 1) => true | _ => false end.
+Definition turn_g (ra yr pb : bool) (wp : bool) (e : env) (nl : nat) (s : bstate) (t : tid) : bstate :=
   let th := get_thr (b_thr s) t in
   if negb (th_started th) then
-    let '(th', w', evs') := drain_calls ra false e t (th_loc th) (th_rest th) (b_w s) (b_evs s) in
+    let '(th', w', evs') := drain_calls ra false pb e t (th_loc th) (th_rest th) (b_w s) (b_evs s) in
     mkb w' (set_nth (b_thr s) t th') evs' (set_nth (b_noted s) t false)
   else
     match th_cur th with
@@ -193,21 +207,22 @@ Definition turn_g (ra yr : bool) (wp : bool) (e : env) (nl : nat) (s : bstate) (
               mkb w1 (set_nth (b_thr s) t (mkthr (Some (o, Op pause_op (fun _ => p'))) (th_rest th) (th_loc th) true false))
                   (wrap (w_trace w1) ++ b_evs s) (set_nth (b_noted s) t false)
             else
-              let '(th', w', evs') := settle ra lr e t o (th_loc th) (th_rest th) p' w1 (wrap (w_trace w1) ++ b_evs s) in
+              let '(th', w', evs') := settle ra lr (pb && negb (is_bpause (parked th))) pb e t o (th_loc th) (th_rest th) p' w1
+                                             (wrap (w_trace w1) ++ b_evs s) in
               mkb w' (set_nth (b_thr s) t th') evs' (set_nth (b_noted s) t false)
         | _ => s
         end
     | None => s
     end.
-Definition turn := turn_g false false.
+Definition turn := turn_g false false false.
 
-Fixpoint run_sched_g (ra yr : bool) (wp : bool) (e : env) (nl : nat) (s : bstate) (sched : list tid) : bstate * bool :=
+Fixpoint run_sched_g (ra yr pb : bool) (wp : bool) (e : env) (nl : nat) (s : bstate) (sched : list tid) : bstate * bool :=
   let s := note_waits wp nl s (seq 0 (length (b_thr s))) in
   match sched with
   | [] => (s, true)
-  | t :: r => if enabled wp s t then run_sched_g ra yr wp e nl (turn_g ra yr wp e nl s t) r else (s, false)
+  | t :: r => if enabled wp s t then run_sched_g ra yr pb wp e nl (turn_g ra yr pb wp e nl s t) r else (s, false)
   end.
-Definition run_sched := run_sched_g false false.
+Definition run_sched := run_sched_g false false false.
 
 Inductive bstatus := BDone | BDeadlock | BSelfWait | BUnfinished | BBadSchedule.
 
@@ -240,7 +255,7 @@ Definition binit (b : bscen) : bstate :=
 
 Definition model_bobs_g (ra : bool) (b : bscen) (sched : list tid) : bobs :=
   let sc := bs_sc b in
-  let '(s, ok) := run_sched_g ra (bs_yr b) (bs_wp b) (sc_env sc) (sc_nlocks sc) (binit b) sched in
+  let '(s, ok) := run_sched_g ra (bs_yr b) false (bs_wp b) (sc_env sc) (sc_nlocks sc) (binit b) sched in
   mkbo (status_of (bs_wp b) s ok) (rev (b_evs s)) (snapshot_holds (sc_nlocks sc) (b_w s))
        (snapshot_psn (sc_npids sc) (b_w s)).
 Definition model_bobs := model_bobs_g false.
@@ -313,7 +328,7 @@ Fixpoint stable_along_g (ra yr : bool) (nl : nat) (wp : bool) (rk : lock -> nat)
   stable_b nl wp rk N s &&
   match sched with
   | [] => true
-  | t :: r => if enabled wp s t then stable_along_g ra yr nl wp rk N e (turn_g ra yr wp e nl s t) r else true
+  | t :: r => if enabled wp s t then stable_along_g ra yr nl wp rk N e (turn_g ra yr false wp e nl s t) r else true
   end.
 Definition stable_along := stable_along_g false false.
 
